@@ -346,6 +346,9 @@ def check_case(R, case, mtree, stream):
     # oracle
     for i, (sn, bad) in enumerate(steps):
         if bad:
+            R._c13_oracle = getattr(R, '_c13_oracle', 0) + 1
+            if R._c13_oracle > 8:
+                break               # enough replays; shrinking every further failing case only costs time
             small = shrink_case(dict(case, ops=case['ops'][:i]), lambda c: first_oracle_failure(c) is not None)
             ff = first_oracle_failure(small)
             R.fail('oracle', dict(small, stream=stream), {'step': ff[0], 'violations': ff[1][:5], 'original_length': len(case['ops'])}, key=None)
@@ -400,7 +403,7 @@ def stream_exhaustive(R, ncolors):
     n_exh = len(cases)
     extra = []
     rng = R.subrng('exh-extra')
-    for _ in range(R.pick(6000, 30000)):
+    for _ in range(R.pick(3000, 30000)):
         cfg = rng.choice(CONFIGS)
         k = rng.choice([kmax + 1, kmax + 2, kmax + 3])
         extra.append(dict(cfg, ops=[rng.choice(al) for _ in range(k)]))
@@ -453,8 +456,10 @@ def stream_ladders(R, ncolors):
     length = R.pick(6, 8)
     al = ladder_alphabet()
     cases = []
-    for cfg in LADDER_CONFIGS:
+    for ci, cfg in enumerate(LADDER_CONFIGS):
         for k in range(1, kmax + 1):
+            if k == kmax and ci == 2 and R.quick():
+                continue        # quick tier: depth 3 from the first two configurations only
             walks = ladder_walks(k, length)
             for cmds in itertools.product(al, repeat=k):
                 for w in walks:
@@ -542,9 +547,9 @@ def rand_case(rng, burst=False, max_undo=50, ladder=False):
 
 
 def stream_random(R, ncolors, max_undo):
-    n = R.pick(900, 8000)
+    n = R.pick(700, 8000)
     nb = R.pick(16, 120)
-    nl = R.pick(500, 4000)
+    nl = R.pick(400, 4000)
     cases = [rand_case(R.subrng('rand', i)) for i in range(n)]
     cases += [rand_case(R.subrng('ladder', i), ladder=True) for i in range(nl)]
     cases += [rand_case(R.subrng('burst', i), burst=True, max_undo=max_undo) for i in range(nb)]
